@@ -228,4 +228,27 @@ _EXTRA4 = {
 for _k, _v in _EXTRA4.items():
     CHECKS[_k]["text"] = CHECKS[_k]["text"].rstrip() + " " + _v
 
+_EXTRA5 = {
+    "C01": "Also (round 6): conversations that repeat a text after a turn that failed (rail action reading the context), the shipped self check input rail with its real action over a ladder of text lengths, Colang 2.x calls carrying several utterances.",
+    "C02": "Also (round 6): LLM texts shaped like variable references / templates with the variables defined, the real self_check_output action with verdicts that depend on the user message (same bot text recurring), 2.x rails that rewrite the global bot message, the shipped 1.0 self-check rail followed by another rail.",
+    "C03": "Also (round 6): Colang 2.x rails of the threshold shape (`if $ok < 0.5`).",
+    "C04": "Also (round 6): every written form of an expected value (interpolation, brace escapes, `$`-texts, variables) in lists / dicts / sets, pattern variables of 10 provenances, return values written on flow references, interpolated texts with special characters, ladders of up to 10000 unmentioned elements.",
+    "C05": "Also (round 6): observer flows that wait for Finished / Started of a competitor stay untouched.",
+    "C07": "Also (round 6): formulas written with only the parentheses precedence needs, in every statement form incl. the keyword-less group statement.",
+    "C08": "Also (round 6): chains of nested / recursive calls with same-named parameters at every level, calls with several non-idempotent argument expressions (`$q.pop(0)`, `uid()`) incl. `send StartFlow(..)` forms.",
+    "C09": "Also (round 6): family D - AddFlowsAction / RemoveFlowsAction / StartFlow on up to two conversations of one real RuntimeV2_x, breadth-first over all histories, predicates on every conversation's State after every call.",
+    "C10": "Also (round 6): a faulty expression at 18 statement forms x 15 control-flow neighbourhoods, activated flows whose child fails at once, faulty flow-event matches inside groups, action-looking event names with an action_uid.",
+    "C11": "Also (round 6): the state-reading answers come from the library's real CheckValidFlowExistsAction / CheckFlowDefinedAction.",
+    "C12": "Also (round 6): blocks that hold only statements without effect (comments, pass) in the 2.x control grammar, combined Colang 1.0 configurations (`config_a + config_b` with same-id flows) as loaded by the runtime.",
+    "C13": "Also (round 6): CRLF line ends among the meaningless layouts, files with expressions on later lines.",
+    "C14": "Also (round 6): statements continued over several lines with every indentation of the continuation, conversations in which a failed action takes a turn back (hide_prev_turn), `$name` inside string literals.",
+    "C15": "Also (round 6): passthrough mode with three API forms awaited from one task, 2.x flows continued from their docstring, container-valued parameter defaults changed in place.",
+    "C16": "Also (round 6): rails-only calls at the end of conversations whose texts repeat (history from messages / cache / state), one parametrised rail configured several times, exception mode with the shipped self-check rails, a tracing-enabled configuration.",
+    "C17": "Also (round 6): texts with a lone surrogate, the LLM calls of the shipped self-check rails (input / output / facts) as hostile positions.",
+    "C19": "Also (round 6): cancellation of a request as a schedule choice, 22 pairs of texts that collide under cheap hashes x every key generator x store.",
+    "C20": "Also (round 6): part E - the real `nemoguardrails server` command (typer CliRunner, uvicorn stubbed) for 14 command lines, part F - near-equal thread ids of lengths 16..255, part D with passthrough / masking rails.",
+}
+for _k, _v in _EXTRA5.items():
+    CHECKS[_k]["text"] = CHECKS[_k]["text"].rstrip() + " " + _v
+
 NOT_APPLICABLE = {}
